@@ -46,7 +46,9 @@ CLAIMS["C14"] = dict(
           "reorder buffer: representation invariant of the ring (slot at distance k holds sequence number last+1+k), returned packets "
           "strictly increasing modulo 2^16, a packet displaced by less than the buffer size is stored and not dropped, loss count equals "
           "the skipped sequence numbers, restart detected after exactly buffer-size+1 negative packets; and of ProcessPacket2: counters "
-          "(received, lost, since-report) advance by exactly the returned amounts, last sequence number and cycle counter updates."),
+          "(received, lost, since-report) advance by exactly the returned amounts, last sequence number and cycle counter updates. Wiring: both readPacketRTP "
+          "functions call ProcessPacket2 once and hand every packet it releases to the application callback (one call per packet, loop invariant over a call counter); "
+          "the client turns reordering on exactly when the media arrives over UDP."),
     note=TRUST + "Loop invariants are hand-written and slot-indexed; the counting function cnt is introduced by definitional axioms and its two lemmas are proved by induction in the same run. Jitter (floating point) and the RTCP report formula are not decided.",
     design="DESIGN.md section 4, C14 and appendix C.1",
 )
@@ -86,7 +88,8 @@ CLAIMS["C07"] = dict(
     text=("Deductive proof of the per-packet resynchronisation clauses of the stateful depacketizers under contract: a start packet determines "
           "the decoder state by itself (whatever partial state was left behind), a continuation packet carrying the expected sequence number "
           "while a frame is in progress is accepted, any other continuation is refused and the partial frame dropped, and a completed frame "
-          "leaves no partial state. These clauses give the property's conclusion by induction over the packet history."),
+          "leaves no partial state; for the KLV decoder also that the packet following in sequence modulo 2^16 (65535 -> 0 included) is never taken for a loss. "
+          "These clauses give the property's conclusion by induction over the packet history."),
     note=TRUST + "The induction over the packet history is an argument in DESIGN.md, not a machine-checked lemma. Decoders covered are listed in the evidence (functions_under_contract); the others are not decided.",
     design="DESIGN.md section 4, C07",
 )
@@ -120,13 +123,15 @@ CLAIMS["C04"] = dict(
           "status message and body, Conn.Read dispatches without panic, and none of these functions can index, slice or allocate out of range. "
           "InterleavedFrame.MarshalTo writes the 4-byte header and the payload exactly as specified when the buffer has 4+len(Payload) bytes."
           + B + "messages written with Conn.Write* come back from Conn.Read as the same sequence however the stream is split into reads (578 runs), and bytes written through the base64 tunnel encoding come back unchanged however the encoded stream is split (2366 runs)."),
-    note=TRUST + "bufio.Reader, io.ReadFull and io.Reader.Read are assumed contracts (Peek returns exactly n bytes; reads may change every bufio.Reader and every byte array). Independence from how the stream is split into reads, the tunnels and whole-message round trips are NOT decided.",
+    note=TRUST + "bufio.Reader, io.ReadFull and io.Reader.Read are assumed contracts (Peek returns exactly n bytes; reads may change every bufio.Reader and every byte array). Independence from how the stream is split into reads, the tunnel and whole-message round trips are decided only on the bounded grid (not proved).",
     design="DESIGN.md section 4, C04",
 )
 CLAIMS["C12"] = dict(
     text=("Deductive proof of the leaf clause the client relies on when a server sends hostile control attributes: description.Media.URL and "
           "base.ParseURL return a URL or an error, never (nil, nil), for every content base and control string, and Media.URL itself never "
-          "indexes out of range. (The defect this clause exposed is repaired by a fix: commit, see known_findings.json.)"),
+          "indexes out of range (the defect this clause exposed is repaired by a fix: commit, see known_findings.json); Client.doSetup sends its request to a non-nil URL; "
+          "fastRTPUnmarshal never slices out of range whatever the padding count says; clientMedia.initialize never installs the play-side readers (which hand packets to receivers "
+          "that exist only for medias the client reads) for a back channel, over UDP or interleaved TCP."),
     note=TRUST + "net/url.Parse is an assumed contract. Timeouts, Close, goroutine and socket cleanup and error reporting from later calls are NOT decided (process-level).",
     design="DESIGN.md section 4, C12",
 )
@@ -140,14 +145,16 @@ CLAIMS["C02"] = dict(
           "method is illegal in the current state gets an error and status 400 and leaves the state unchanged; every exit returns a state related to the "
           "entry state by at most one legal transition; checkState returns nil exactly when the state is in the allowed set (map membership modelled). "
           "That no other function writes the state field is checked syntactically over the whole module on every run. "
-          "ServerConn.handleRequestOuter writes exactly one response on every path (call counter), whatever the handlers return."),
+          "ServerConn.handleRequestOuter writes exactly one response on every path (call counter), whatever the handlers return. "
+          "ServerConn.handleRequestInSession leaves the connection pointing at what the session handler returned (the session, or none once it ended)."),
     note=TRUST + ABSTR + "The CSeq echo (a user hook may rewrite the response), request sequences, timeouts, keep-alive expiry and 'ends exactly once' are NOT decided. Handlers are assumed not to re-enter the session synchronously.",
     design="DESIGN.md section 4, C02",
 )
 CLAIMS["C17"] = dict(
     text=("Deductive proof of the no-downgrade decision points: isTransportSupported / pickFirstSupportedTransport accept a transport only if a secure profile "
           "comes with TLS, UDP over RTSPS uses the secure profile, and UDP is not tunnelled; the client follows a redirect only if an rtsps connection stays "
-          "rtsps (assertion at the store of the new scheme); the client requests UDP over RTSPS only with the secure profile (assertions right after the check)."),
+          "rtsps (assertion at the store of the new scheme); the client requests UDP over RTSPS only with the secure profile (assertions right after the check); "
+          "mikeyToContext pairs every roll-over counter with its own SSRC; on the three RTP write paths the buffer handed on is the encrypted one whenever an SRTP context exists, never the plain one."),
     note=TRUST + ABSTR + "That SRTP encrypts and authenticates (pion/srtp), key material carried by MIKEY end to end, and tamper rejection are NOT decided.",
     design="DESIGN.md section 4, C17",
 )
@@ -162,8 +169,9 @@ CLAIMS["C18"] = dict(
 CLAIMS["C19"] = dict(
     text=("Deductive proof of two peer-binding decision points: the client's UDP listener reaches the time-stamp update and the read callback only after the source IP "
           "compared equal to the negotiated one and the source port equals the negotiated (or first-seen, with AnyPortEnable) port; a request arriving for a session "
-          "that is bound to another interleaved connection is answered 400 with an error and leaves the session state unchanged."),
-    note=TRUST + ABSTR + "The server's UDP dispatch (map keyed by a composite address) and the session lookup by creator IP in Server.runInner are NOT decided; effects on statistics and timeouts over histories are not decided.",
+          "that is bound to another interleaved connection is answered 400 with an error and leaves the session state unchanged; "
+          "Server.runInner hands a session to a connection only if the connection created it or has the author's IP and zone, whatever the request's method."),
+    note=TRUST + ABSTR + "The server's UDP dispatch (map keyed by a composite address; clientAddr.fill's embedded array is abstracted by the engine) is NOT decided; effects on statistics and timeouts over histories are not decided.",
     design="DESIGN.md section 4, C19",
 )
 CLAIMS["C20"] = dict(
